@@ -8,7 +8,7 @@ import struct
 import zipfile
 
 BYTE_OPS = ["truncate", "truncate_tail", "bitflip", "byteset", "zero", "splice", "dup", "insert", "numbers", "head_only", "empty",
-            "append_junk", "stamp_twice", "copy_block"]
+            "append_junk", "stamp_twice", "copy_block", "picture_half_written"]
 
 
 def _stamps(rng):
@@ -55,6 +55,26 @@ def byte_mutate(data: bytes, op: str, rng: random.Random, other: bytes = b"") ->
         blk = data[i:i + ln]
         j = rng.randrange(n)
         return data[:j] + blk + data[j:] if rng.random() < 0.5 else data + blk
+    if op == "picture_half_written":
+        # an embedded picture that was only partly written: its signature and first segment / chunk are intact, the rest of the picture
+        # (up to and including its end marker) is filler; every length, offset and record header around it stays valid
+        b = bytearray(data)
+        spots = [(m.start(), "jpeg") for m in re.finditer(rb"\xff\xd8\xff[\xe0-\xef\xdb]", data)] + [(m.start(), "png") for m in re.finditer(rb"\x89PNG\r\n\x1a\n", data)]
+        if not spots:
+            return byte_mutate(data, "zero", rng)
+        i, kind = rng.choice(spots)
+        fill = rng.choice([0, 0, 0x55, 0x20])
+        if kind == "jpeg":
+            seg_len = struct.unpack(">H", data[i + 4:i + 6])[0] if i + 6 <= n else 0
+            start = min(n, i + 4 + seg_len) if rng.random() < 0.7 else min(n, i + 4 + seg_len + rng.randrange(0, 64))
+            end = data.find(b"\xff\xd9", start)
+            end = n if end < 0 else end + 2
+        else:
+            start = min(n, i + 8 + 25)            # signature + IHDR chunk
+            end = data.find(b"IEND", start)
+            end = n if end < 0 else end + 8
+        b[start:end] = bytes([fill]) * (end - start)
+        return bytes(b)
     b = bytearray(data)
     if op == "bitflip":
         for _ in range(rng.choice([1, 1, 2, 4, 16, 64])):
